@@ -381,7 +381,7 @@ class Interpolator:
 
             while True:
                 d = groupdict(m, matched)
-                string = d["expression"] or d.get("variable") or ""
+                source = string = d["expression"] or d.get("variable") or ""
 
                 if self.decode_htmlentities:
                     string = decode_htmlentities(string)
@@ -395,12 +395,17 @@ class Interpolator:
                                 string, char_escape=self.char_escape
                             )
                         body += compiler.assign_text(target)
-                    except ExpressionError:
+                    except ExpressionError as exc:
                         matched = matched[m.start():m.end() - 1]
                         m = self.regex.search(matched)
                         # (a shorter expression starts where this one
                         # does, it is not a variable inside of it)
                         if m is None or m.start() > 0:
+                            if string != source:
+                                # Positions in the decoded text are not
+                                # those of the source: report the
+                                # expression as it is written.
+                                raise type(exc)(exc.args[0], source.strip())
                             raise
 
                         continue
